@@ -4,7 +4,10 @@
     Mirrors, as they are written:
       StreamRewriter.in_to_out   (fileformat, filereplace)
       ObjectRewriter.in_to_out   (fileformatjson / yaml / toml)
-      move_temp_file / move_file (try os.replace; on failure try os.remove, re-raise the first error)
+      the try/except around the temp file's with block in both in_to_out methods (any failure
+        of formatting, of a write or of the closing flush: remove_temp_file, re-raise)
+      move_temp_file / move_file / remove_temp_file (try os.replace; on failure try os.remove -
+        a failure of THAT is logged and dropped - and re-raise the first error)
       is_same_file               (out == in is routed to the in-place path)
       FileRewriter.files_in_to_out (the loop over the glob result; stops at the first failure)
 
@@ -68,11 +71,13 @@ Record st := mkst {
   sd : dir;
   src_open : bool;                   (* a read handle on the source is open *)
   wh : option (name * tstate);       (* the write handle: temp file, or the out file *)
+  in_try : bool;                     (* inside `try: with NamedTemporaryFile(...) as outfile:`
+                                        with outfile bound: an exception now removes the temp *)
   temps : list name;                 (* ghost: every temp name created so far *)
   nrep : nat                         (* ghost: number of os.replace calls that took effect *)
 }.
 
-Definition init (d : dir) : st := mkst d false None [] 0.
+Definition init (d : dir) : st := mkst d false None false [] 0.
 
 Definition wname (s : st) : option name :=
   match wh s with Some (t, _) => Some t | None => None end.
@@ -98,14 +103,16 @@ Definition visible (o : op) : bool :=
 Definition namer := dir -> string -> name.
 
 Definition set_src (b : bool) (s : st) : st :=
-  mkst (sd s) b (wh s) (temps s) (nrep s).
+  mkst (sd s) b (wh s) (in_try s) (temps s) (nrep s).
 Definition set_w (ts : tstate) (s : st) : st :=
   match wh s with
-  | Some (t, _) => mkst (sd s) (src_open s) (Some (t, ts)) (temps s) (nrep s)
+  | Some (t, _) => mkst (sd s) (src_open s) (Some (t, ts)) (in_try s) (temps s) (nrep s)
   | None => s
   end.
 Definition set_sd (d : dir) (s : st) : st :=
-  mkst d (src_open s) (wh s) (temps s) (nrep s).
+  mkst d (src_open s) (wh s) (in_try s) (temps s) (nrep s).
+Definition set_try (b : bool) (s : st) : st :=
+  mkst (sd s) (src_open s) (wh s) b (temps s) (nrep s).
 
 Definition exec (nm : namer) (o : op) (s : st) : st :=
   match o with
@@ -113,9 +120,9 @@ Definition exec (nm : namer) (o : op) (s : st) : st :=
   | CloseSrc => set_src false s
   | MkTemp src =>
       let t := nm (sd s) (dirpart src) in
-      mkst (dset t "" (sd s)) (src_open s) (Some (t, TOpen)) (t :: temps s) (nrep s)
+      mkst (dset t "" (sd s)) (src_open s) (Some (t, TOpen)) true (t :: temps s) (nrep s)
   | OpenWrite out =>
-      mkst (dset out "" (sd s)) (src_open s) (Some (out, TOpen)) (temps s) (nrep s)
+      mkst (dset out "" (sd s)) (src_open s) (Some (out, TOpen)) false (temps s) (nrep s)
   | Write c =>
       match wh s with
       | Some (t, _) =>
@@ -125,12 +132,12 @@ Definition exec (nm : namer) (o : op) (s : st) : st :=
           end
       | None => s
       end
-  | CloseW => set_w TClosed s
+  | CloseW => set_try false (set_w TClosed s)      (* the with block, and the try, are left *)
   | Replace dst =>
       match wh s with
       | Some (t, _) =>
           match lookup t (sd s) with
-          | Some b => mkst (dremove t (dset dst b (sd s))) (src_open s) (wh s) (temps s) (S (nrep s))
+          | Some b => mkst (dremove t (dset dst b (sd s))) (src_open s) (wh s) (in_try s) (temps s) (S (nrep s))
           | None => s
           end
       | None => s
@@ -168,14 +175,18 @@ Record result := mkres {
   outc : outcome;
   hist : list (op * st);        (* the state BEFORE each primitive issued, in order *)
   next : nat;                   (* primitives issued so far *)
-  stop : option (nat * op)      (* the main-line step that raised, with the counter there *)
+  stop : option (nat * op);     (* the main-line step that raised, with the counter there *)
+  rmfail : bool                 (* a clean-up os.remove of the temp file itself raised *)
 }.
 
 Definition prepend (h : list (op * st)) (r : result) : result :=
-  mkres (final r) (outc r) (h ++ hist r) (next r) (stop r).
+  mkres (final r) (outc r) (h ++ hist r) (next r) (stop r) (rmfail r).
 
 Definition with_stop (x : option (nat * op)) (r : result) : result :=
-  mkres (final r) (outc r) (hist r) (next r) x.
+  mkres (final r) (outc r) (hist r) (next r) x (rmfail r).
+
+Definition with_rmfail (r : result) : result :=
+  mkres (final r) (outc r) (hist r) (next r) (stop r) true.
 
 (** every directory state an outside observer (or a kill) can see during the run *)
 Definition all_states (r : result) : list st := map snd (hist r) ++ [final r].
@@ -183,33 +194,46 @@ Definition all_states (r : result) : list st := map snd (hist r) ++ [final r].
 Definition wh_is_open (s : st) : bool :=
   match wh s with Some (_, TOpen) => true | _ => false end.
 
-(** An exception [e] propagates: the with blocks close their handles, innermost (the write
-    handle) first.  A close that raises replaces the exception in flight; the outer with
-    still runs. *)
+(** An exception [e] propagates out of the body.  In the order the code runs them:
+    1. the with block of the write handle closes it (a close that raises replaces the
+       exception in flight);
+    2. if that was the temp file's with block - we are inside the try and [outfile] is bound -
+       the except clause calls remove_temp_file (a failure is logged and dropped) and re-raises;
+    3. the with block of the source handle, if still open, closes it. *)
+Definition unwind3 (F : nat -> fmode) (n : nat) (s : st) (e : exn) (h : list (op * st))
+           (rf : bool) : result :=
+  if src_open s then
+    match F n with
+    | Crash => mkres s Crashed (h ++ [(CloseSrc, s)]) (S n) None rf
+    | Raise => mkres (set_src false s) (Raised (EInj n)) (h ++ [(CloseSrc, s)]) (S n) None rf
+    | NoFault => mkres (set_src false s) (Raised e) (h ++ [(CloseSrc, s)]) (S n) None rf
+    end
+  else mkres s (Raised e) h n None rf.
+
+Definition do_remove (s : st) : st :=
+  match wh s with
+  | Some (t, _) => set_sd (dremove t (sd s)) s
+  | None => s
+  end.
+
+Definition unwind2 (F : nat -> fmode) (n : nat) (s : st) (e : exn) (h : list (op * st))
+  : result :=
+  if in_try s then
+    match F n with
+    | Crash => mkres s Crashed (h ++ [(Remove, s)]) (S n) None false
+    | Raise => unwind3 F (S n) (set_try false s) e (h ++ [(Remove, s)]) true
+    | NoFault => unwind3 F (S n) (set_try false (do_remove s)) e (h ++ [(Remove, s)]) false
+    end
+  else unwind3 F n s e h false.
+
 Definition unwind (F : nat -> fmode) (n : nat) (s : st) (e : exn) : result :=
   if wh_is_open s then
     match F n with
-    | Crash => mkres s Crashed [(CloseW, s)] (S n) None
-    | fm =>
-        let s1 := match fm with Raise => set_w TBroken s | _ => set_w TClosed s end in
-        let e1 := match fm with Raise => EInj n | _ => e end in
-        if src_open s1 then
-          match F (S n) with
-          | Crash => mkres s1 Crashed [(CloseW, s); (CloseSrc, s1)] (S (S n)) None
-          | Raise => mkres (set_src false s1) (Raised (EInj (S n)))
-                           [(CloseW, s); (CloseSrc, s1)] (S (S n)) None
-          | NoFault => mkres (set_src false s1) (Raised e1)
-                             [(CloseW, s); (CloseSrc, s1)] (S (S n)) None
-          end
-        else mkres s1 (Raised e1) [(CloseW, s)] (S n) None
+    | Crash => mkres s Crashed [(CloseW, s)] (S n) None false
+    | Raise => unwind2 F (S n) (set_w TBroken s) (EInj n) [(CloseW, s)]
+    | NoFault => unwind2 F (S n) (set_w TClosed s) e [(CloseW, s)]
     end
-  else if src_open s then
-    match F n with
-    | Crash => mkres s Crashed [(CloseSrc, s)] (S n) None
-    | Raise => mkres (set_src false s) (Raised (EInj n)) [(CloseSrc, s)] (S n) None
-    | NoFault => mkres (set_src false s) (Raised e) [(CloseSrc, s)] (S n) None
-    end
-  else mkres s (Raised e) [] n None.
+  else unwind2 F n s e [].
 
 (** primitive [o] raised [e] (state [s] = after its fail_effect, [n] = next index):
     move_temp_file catches a failing replace, tries to remove the temp (a failure of THAT is
@@ -219,8 +243,8 @@ Definition handler (nm : namer) (F : nat -> fmode) (o : op) (n : nat) (s : st) (
   match o with
   | Replace _ =>
       match F n with
-      | Crash => mkres s Crashed [(Remove, s)] (S n) None
-      | Raise => prepend [(Remove, s)] (unwind F (S n) s e)
+      | Crash => mkres s Crashed [(Remove, s)] (S n) None false
+      | Raise => with_rmfail (prepend [(Remove, s)] (unwind F (S n) s e))
       | NoFault => prepend [(Remove, s)] (unwind F (S n) (exec nm Remove s) e)
       end
   | _ => unwind F n s e
@@ -232,11 +256,11 @@ Definition data_exn (o : op) : exn :=
 (** run the main line [ops] from primitive index [n] in state [s] *)
 Fixpoint run_ops (nm : namer) (F : nat -> fmode) (ops : list op) (n : nat) (s : st) : result :=
   match ops with
-  | [] => mkres s Done [] n None
+  | [] => mkres s Done [] n None false
   | o :: rest =>
       if visible o then
         match F n with
-        | Crash => mkres s Crashed [(o, s)] (S n) None
+        | Crash => mkres s Crashed [(o, s)] (S n) None false
         | Raise => with_stop (Some (n, o))
                      (prepend [(o, s)] (handler nm F o (S n) (fail_effect o s) (EInj n)))
         | NoFault => prepend [(o, s)] (run_ops nm F rest (S n) (exec nm o s))
@@ -262,12 +286,22 @@ Definition inplace_ops (k : kind) (pl : plan) (src : name) : list op :=
   match k with
   | Stream =>
       (* with open(in) as infile:
-           with NamedTemporaryFile(...) as outfile: outfile.writelines(formatter(infile))
+           outfile = None
+           try:
+             with NamedTemporaryFile(...) as outfile: outfile.writelines(formatter(infile))
+           except Exception:
+             if outfile is not None: remove_temp_file(outfile.name)
+             raise
          move_temp_file(outfile.name, infile.name) *)
       [OpenRead src; MkTemp src] ++ map item_op (items pl) ++ [CloseW; CloseSrc; Replace src]
   | Object =>
       (* with open(in) as infile: obj = load(infile)
-         with NamedTemporaryFile(...) as outfile: dump(outfile, formatter(obj))
+         outfile = None
+         try:
+           with NamedTemporaryFile(...) as outfile: dump(outfile, formatter(obj))
+         except Exception:
+           if outfile is not None: remove_temp_file(outfile.name)
+           raise
          move_temp_file(outfile.name, infile.name) *)
       [OpenRead src] ++ load_ops pl ++ [CloseSrc; MkTemp src] ++ map item_op (items pl)
         ++ [CloseW; Replace src]
@@ -320,13 +354,13 @@ Definition xform := bytes -> option plan.   (* None: content outside the harness
 Fixpoint run_files (nm : namer) (F : nat -> fmode) (xf : xform) (k : kind) (m : outmode)
          (paths : list name) (n : nat) (s : st) : result :=
   match paths with
-  | [] => mkres s Done [] n None
+  | [] => mkres s Done [] n None false
   | p :: rest =>
       match lookup p (sd s) with
       | None => run_files nm F xf k m rest n s          (* not is_file(): skipped *)
       | Some old =>
           match xf old with
-          | None => mkres s Unsupp [] n None
+          | None => mkres s Unsupp [] n None false
           | Some pl =>
               let r := run_ops nm F (file_ops k pl p m) n s in
               match outc r with
@@ -341,7 +375,7 @@ Fixpoint run_files (nm : namer) (F : nat -> fmode) (xf : xform) (k : kind) (m : 
 Definition run_step (nm : namer) (F : nat -> fmode) (xf : xform) (k : kind) (m : outmode)
            (paths : list name) (d : dir) : result :=
   match m, paths with
-  | OutFile _, _ :: _ :: _ => mkres (init d) (Raised EConfig) [] 0 None
+  | OutFile _, _ :: _ :: _ => mkres (init d) (Raised EConfig) [] 0 None false
   | _, _ => run_files nm F xf k m paths 0 (init d)
   end.
 
